@@ -300,6 +300,20 @@ void generate(Plan& p, Rng& g, const std::string&)
   int nobj = g.chance(3, 4) ? 1 : 2;
   p.seti("nobj", nobj);
   for (int o = 0; o < nobj; o++) { p.seti("doc" + std::to_string(o), (long long)g.below(g_docs.size())); p.seti("alg" + std::to_string(o), (long long)g.below(4)); }
+  // two live objects of the SAME input (same sizes, same degrees of freedom) are where state shared between objects
+  // - a static cache keyed by a size, a class-level switch - would show
+  if (nobj == 2 && g.chance(1, 2)) {
+    p.seti("doc1", p.geti("doc0", 0));
+    if (g.chance(1, 2)) {
+      // cross-talk script: one of the twins gets another parameter, then both are asked the same statistical
+      // question in turn, twice (the second round is answered without any fresh object being built in between)
+      static const char* X[] = {"conf_int_coef", "doc:xml", "doc:general", "studentized", "stdev_res", "unknown_stdev", "ellipse", "doc:adjobs", "doc:unknowns", "m_0", "stdev_obs"};
+      auto qi = [&](const char* name) { for (int i = 0; i < NQK; i++) if (std::string(QK[i]) == name) return i; return 0; };
+      { Step s; s.op = "par"; s.a = {0, (long long)g.below(3), (long long)g.range(1, 3)}; p.steps.push_back(s); }
+      int k = qi(X[g.below(11)]); long long a = (long long)g.below(64);
+      for (int round = 0; round < 2; round++) for (int o = 0; o < 2; o++) { Step s; s.op = "q"; s.a = {o, k, a, a}; p.steps.push_back(s); }
+    }
+  }
   int ntask = (int)g.range(2, 4);
   struct Task { int obj, flavour, left; };
   std::vector<Task> tasks;
